@@ -233,6 +233,22 @@ def render_tokens(tokens, rng=None, canonical=True):
                 parts.append(v[0] + "_" + v[1:])
             elif k < 0.65:
                 parts.append("0X"[0] + "x" + "%X" % n)
+            elif k < 0.80:
+                # underscores ANYWHERE the scanner allows them: doubled, trailing, right after the radix prefix, between all digits
+                def us(digits):
+                    out_ = ""
+                    for j, dch in enumerate(digits):
+                        out_ += dch + rng.choice(["", "", "_", "__"])
+                    return out_
+                form = rng.randrange(4)
+                if form == 0:
+                    parts.append(v[0] + us(v[1:]) + rng.choice(["", "_"]) if len(v) > 1 else v + "_")
+                elif form == 1:
+                    parts.append("0x" + rng.choice(["", "_", "__"]) + us("%x" % n))
+                elif form == 2:
+                    parts.append("0b" + rng.choice(["", "_"]) + us(bin(n)[2:]))
+                else:
+                    parts.append("0x" + "".join(rng.choice([c.lower(), c.upper()]) for c in "%x" % n) + rng.choice(["", "_"]))
             else:
                 parts.append(v)
         elif t == "operator" and v in ("!=", "<>") and not canonical and rng is not None:
